@@ -516,13 +516,11 @@ def _main(args, pid, seed_base, t0, work):
     # 2. optional module-specific deterministic legs (e.g. C08 cross-process histories)
     extra_leg = getattr(mod, "extra_leg", None)
     results = []
-    if extra_leg is not None:
-        r = extra_leg(tier, seed_base, ctx, known_names, work)
-        lines += r.pop("lines", [])
-        for ln in r.pop("print", []):
-            print(ln)
-        violations += r.pop("violations", [])
-        results.append(r)
+    pending = None
+    if extra_leg is not None and args.shard is None:
+        # runs beside the generated search (it only spawns and waits for other interpreters)
+        from multiprocessing.pool import ThreadPool
+        pending = ThreadPool(1).apply_async(extra_leg, (tier, seed_base, ctx, known_names, work))
 
     # 3. generated search
     nshards = args.shards or NSHARDS[tier]
@@ -548,6 +546,11 @@ def _main(args, pid, seed_base, t0, work):
                 return 2
             with open(out) as f:
                 results.append(json.load(f))
+
+    if pending is not None:
+        r = pending.get()
+        violations += r.pop("violations", [])
+        results.insert(0, r)
 
     harness = [r["harness_error"] for r in results if r.get("harness_error")]
     seen = set()
